@@ -420,6 +420,7 @@ struct HaEngine : run::Engine {
 		}
 		if (g.chance(1, 5)) p.ops.push_back({"SILENT", {(int64_t)g.below((uint64_t)neps)}});
 		gen_async_ops(g, p, nops, true, neps);
+		p.cfg["cred_in_uri"] = g.chance(1, 5) ? 1 : 0;
 		return p;
 	}
 	run::RunResult execute(const run::Plan &p, bool trace) override {
